@@ -40,6 +40,7 @@ func (p *vPipe) Init(s *supervisor.Spec, m context.MuxMapper) {
 	}
 }
 func (p *vPipe) Inherit(s *supervisor.Spec, prev supervisor.Object, m context.MuxMapper) {
+	verifYield() // taking over from the predecessor takes a while: other goroutines run meanwhile
 	p.inherits++
 	p.prev = prev
 	vLogInherit++
@@ -98,6 +99,7 @@ func verifC11_TrafficController() {
 	verifAssume(op != 5 || withGate)
 	ea2, pa2 := vEntity("a", 2, verifInt("a.newRevision", 1, 2))
 	ec, _ := vEntity("c", 1, 1)
+	verifRaceScopeDeep(ea2, "the new generation of a")
 	var wg sync.WaitGroup
 	wg.Add(1)
 	go func() {
